@@ -64,7 +64,7 @@ ASSUMPTIONS = [
     "copy.copy(obj) creates a new object with the same attribute values (shallow)",
     "dataclasses.fields(cls) lists the dataclass fields of cls (inherited ones included) once each, in definition order",
     "functools.lru_cache / cached_property caches are not observable diagram state",
-    "RWXNode (rustworkx_utils) objects only reference the wrapped classes they are given; the installed rustworkx_utils is "
+    "RWXNode (rustworkx_utils) objects only reference the wrapped classes they are given and add themselves to the graph passed as `graph=` (their own otherwise); the installed rustworkx_utils is "
     "incompatible with the call the code makes (missing 'graph' argument), so rendering cannot be run natively in this sandbox",
     "the classes handed to ClassDiagram are pairwise distinct (the property speaks of a set of classes)",
 ]
@@ -891,6 +891,17 @@ class RWX(Opaque):
         return True
 
 
+def new_rwx(it, D, a, k):
+    """RWXNode(name, ..., graph=g): a display node lives in the graph it is told to live in -- creating it adds a node to THAT graph
+    (assumed contract of rustworkx_utils; without `graph` the display nodes keep a graph of their own)"""
+    g = k.get("graph")
+    if g is None:
+        g = next((x for x in a if isinstance(x, Opaque) and getattr(x, "tag", "").startswith("graph:")), None)
+    if g is not None and isinstance(g, Opaque) and getattr(g, "tag", "").startswith("graph:"):
+        it.ctx.effect("diag", ("add_node", g, "display-node"))
+    return RWX(D)
+
+
 READ_ONLY = {
     # name -> argument builder(vm, D) -> (args, kwargs)
     "to_subdiagram_without_inherited_associations": lambda vm, D: ([vm.ctx.choice(2, "include_field_name") == 0], {}),
@@ -920,7 +931,7 @@ def h_frame(op):
         ctx = vm.ctx
         D = DWorld(vm)
         CDc = cls(vm, CD, "ClassDiagram")
-        vm.loader.module(CD).values["RWXNode"] = Builtin("RWXNode", lambda it, fr, a, k: RWX(D))
+        vm.loader.module(CD).values["RWXNode"] = Builtin("RWXNode", lambda it, fr, a, k: new_rwx(it, D, a, k))
         vm.spec.attr_hooks[("WrappedField", "is_role_taker")] = lambda it, wf: it.ctx.choice(2, "is-role-taker?") == 0
         since = len(ctx.effects)
 
@@ -986,7 +997,7 @@ def h_frame_sequence(op1, op2):
         ctx = vm.ctx
         D = DWorld(vm)
         CDc = cls(vm, CD, "ClassDiagram")
-        vm.loader.module(CD).values["RWXNode"] = Builtin("RWXNode", lambda it, fr, a, k: RWX(D))
+        vm.loader.module(CD).values["RWXNode"] = Builtin("RWXNode", lambda it, fr, a, k: new_rwx(it, D, a, k))
         vm.spec.attr_hooks[("WrappedField", "is_role_taker")] = lambda it, wf: it.ctx.choice(2, "is-role-taker?") == 0
         state = {"since": None, "held": []}
 
@@ -1032,7 +1043,7 @@ def h_frame_derived(op2):
         ctx = vm.ctx
         D = DWorld(vm)
         CDc = cls(vm, CD, "ClassDiagram")
-        vm.loader.module(CD).values["RWXNode"] = Builtin("RWXNode", lambda it, fr, a, k: RWX(D))
+        vm.loader.module(CD).values["RWXNode"] = Builtin("RWXNode", lambda it, fr, a, k: new_rwx(it, D, a, k))
         vm.spec.attr_hooks[("WrappedField", "is_role_taker")] = lambda it, wf: it.ctx.choice(2, "is-role-taker?") == 0
         state = {"since": None, "held": []}
 
